@@ -146,7 +146,7 @@ def main(argv=None):
         if got is None:
             continue
         m, text, c = got
-        ops = check_model(rep, drv, gen, rng, m, text, c) or {}
+        ops = core.guarded(rep, text, check_model, rep, drv, gen, rng, m, text, c) or {}
         for k, v in ops.items():
             hist[k] = hist.get(k, 0) + v
         s = lang.model_summary(m)
